@@ -61,6 +61,16 @@ Theorem c06_xor_objects a b h ab bb : nth_error h a = Some ab -> nth_error h b =
   exists x v h', h_xor a b h = (Ok x, h') /\ extends h h' /\ nth_error h' x = Some v /\ canon v /\ bside v = bside ab /\
                  abs v = map2 xorb (abs ab) (abs bb).
 Proof. exact (obj_xor a b h ab bb). Qed.
+Theorem c06_invert_objects r h b : nth_error h r = Some b -> canon b ->
+  exists x v h', h_invert r h = (Ok x, h') /\ nth_error h' x = Some v /\ canon v /\ bside v = bside b /\ abs v = map negb (abs b).
+Proof. exact (obj_invert r h b). Qed.
+Theorem c06_value_objects r h b : nth_error h r = Some b -> canon b ->
+  fst (h_value r h) = Ok (Z_of_bits (abs b)) /\ extends h (snd (h_value r h)).
+Proof. exact (obj_value r h b). Qed.
+Theorem c06_chunks_objects r n p h b : nth_error h r = Some b -> canon b -> 0 < n ->
+  exists l vs h', h_chunks r n p h = (Ok l, h') /\ extends h h' /\ Forall2 (fun x v => nth_error h' x = Some v) l vs /\
+                  Forall canon vs /\ map abs vs = Compute.chunks (Z.to_nat n) p (abs b).
+Proof. exact (obj_chunks r n p h b). Qed.
 Print Assumptions c06_shift_left.
 Print Assumptions c06_shift_right.
 Print Assumptions c06_and.
@@ -75,3 +85,6 @@ Print Assumptions c06_shift_right_objects.
 Print Assumptions c06_and_objects.
 Print Assumptions c06_or_objects.
 Print Assumptions c06_xor_objects.
+Print Assumptions c06_invert_objects.
+Print Assumptions c06_value_objects.
+Print Assumptions c06_chunks_objects.
